@@ -118,6 +118,9 @@ type termStatus struct {
 	n        string
 	pending  int
 	handlers int
+	pstart   int // senders of that kind still blocked
+	pfinish  int
+	psig     int
 	raw      string
 }
 
@@ -132,6 +135,19 @@ func parseTermStatus(rep string) termStatus {
 	st.n = strings.TrimPrefix(f[2], "n=")
 	st.pending, _ = strconv.Atoi(strings.TrimPrefix(f[3], "pending="))
 	st.handlers, _ = strconv.Atoi(strings.TrimPrefix(f[4], "handlers="))
+	for _, t := range f[5:] {
+		if kv := strings.SplitN(t, "=", 2); len(kv) == 2 {
+			v, _ := strconv.Atoi(kv[1])
+			switch kv[0] {
+			case "pstart":
+				st.pstart = v
+			case "pfinish":
+				st.pfinish = v
+			case "psig":
+				st.psig = v
+			}
+		}
+	}
 	return st
 }
 
@@ -285,6 +301,207 @@ func checkTerm(r *vlib.Run, h *hook, d *vlib.Driver, c termCase, race bool) {
 			fmt.Sprintf("%s, events [%s]: implementation %q, Lean model %q", c.Mode, strings.Join(c.Events, " "), obs, model), c)
 	}
 }
+
+// ---------------------------------------------------------------- termMonitor: events outside wait()
+
+// gapCase: a sequence of operations on one monitor — `w0` / `w1` call wait(false) / wait(true),
+// `start` `finish` `int` `term` issue an event — in which events are also issued while the
+// monitor is NOT parked in wait(): before wait(false), between wait(false) returning and
+// wait(true), together with the signal.
+type gapCase struct {
+	Kind string   `json:"kind"` // "gap"
+	Ops  []string `json:"ops"`
+}
+
+func checkGap(r *vlib.Run, h *hook, d *vlib.Driver, c gapCase) {
+	c.Kind = "gap"
+	key := "gap " + strings.Join(c.Ops, ",")
+	h.call("term.new")
+	defer h.call("term.end")
+	issued := map[string]int{} // events issued, per kind
+	var st termStatus
+	waiting, flag := false, false
+	var phaseEvs []string // events received during the current wait, in order (if unambiguous)
+	phaseN, ambiguous := 0, false
+	prev := termStatus{}
+	fail := func(sig, desc string) {
+		r.Violate(sig, "impl-oracle", fmt.Sprintf("ops [%s]: %s (driver: %s)", strings.Join(c.Ops, " "), desc, st.raw), c)
+	}
+	model := func(result string) {
+		if ambiguous {
+			r.Count("gap.model", "order-ambiguous-skipped")
+			return
+		}
+		line := fmt.Sprintf("term.wait %d %d %s", map[bool]int{false: 0, true: 1}[flag], phaseN, strings.Join(phaseEvs, " "))
+		rep := d.Call("%s", strings.TrimSpace(line))
+		r.Count("gap.model", "compared")
+		if rep != result {
+			r.Violate("termmon-model-impl-disagree", "correspondence",
+				fmt.Sprintf("ops [%s]: %s: implementation %q, Lean model %q", strings.Join(c.Ops, " "), line, result, rep), c)
+		}
+	}
+	nt, countBad := false, false
+	for i, op := range c.Ops {
+		switch op {
+		case "w0", "w1":
+			flag = op == "w1"
+			waiting, phaseEvs, ambiguous = true, nil, false
+			phaseN = issued["start"] - prev.pstart - (issued["finish"] - prev.pfinish)
+			if prev.pstart+prev.pfinish+prev.psig > 0 {
+				nt = true
+			}
+			st = parseTermStatus(h.call("term.wait " + map[bool]string{false: "0", true: "1"}[flag]))
+		default:
+			issued[op]++
+			st = parseTermStatus(h.call("term.ev " + op))
+		}
+		if st.state == "error" || strings.HasPrefix(st.state, "waiting?") {
+			r.Violate("hook-driver-error", "correspondence", fmt.Sprintf("ops [%s] at %d: %s", strings.Join(c.Ops, " "), i, st.raw), c)
+			return
+		}
+		// what was received in this step: the senders that are no longer blocked
+		before := map[string]int{"start": prev.pstart, "finish": prev.pfinish, "sig": prev.psig}
+		switch op {
+		case "start", "finish":
+			before[op]++
+		case "int", "term":
+			before["sig"]++
+		}
+		got := []string{}
+		for k, v := range map[string]int{"start": st.pstart, "finish": st.pfinish, "sig": st.psig} {
+			for j := v; j < before[k]; j++ {
+				if k == "sig" {
+					k2 := "int"
+					if issued["term"] > 0 && issued["int"] == 0 {
+						k2 = "term"
+					}
+					got = append(got, k2)
+				} else {
+					got = append(got, k)
+				}
+			}
+		}
+		if len(got) > 1 {
+			ambiguous = true
+		}
+		phaseEvs = append(phaseEvs, got...)
+		prev = st
+		// the handlers that are active as far as the handlers themselves can tell: their
+		// onHandlerStart has returned, their onHandlerFinish has not
+		active := (issued["start"] - st.pstart) - (issued["finish"] - st.pfinish)
+		if st.n != "?" && st.n != strconv.Itoa(active) && !countBad {
+			countBad = true // reported once; the run goes on to see what the shutdown does with it
+			fail("handler-count-wrong", fmt.Sprintf("after op %d: %d handlers are active (onHandlerStart returned, onHandlerFinish did not) but numHandlers is %s", i, active, st.n))
+		}
+		if waiting && strings.HasPrefix(st.state, "returned:") {
+			sig := strings.TrimPrefix(st.state, "returned:")
+			waiting = false
+			bySignal := len(got) > 0 && (got[len(got)-1] == "int" || got[len(got)-1] == "term")
+			if flag && !bySignal && active != 0 {
+				// property: a graceful shutdown completes as soon as NO handler is active
+				fail("shutdown-with-active-handlers", fmt.Sprintf("wait(true) returned %s while %d handler(s) whose onHandlerStart had returned were still active", sig, active))
+				return
+			}
+			model(fmt.Sprintf("returned %s %d %s", sig, len(phaseEvs), st.n))
+		} else if waiting && flag && active == 0 && st.pstart+st.pfinish+st.psig == 0 {
+			fail("shutdown-not-completed-at-zero", "no handler is active and nothing is pending, yet wait(true) is parked")
+			return
+		}
+	}
+	if waiting {
+		model(fmt.Sprintf("blocked %s", st.n))
+	}
+	r.Case(key, nt)
+	r.Validated(1)
+	r.Count("gap.len", strconv.Itoa(len(c.Ops)))
+	r.Sample(2, map[string]interface{}{"case": key, "final": st.raw})
+}
+
+// gapHistories: all operation sequences up to maxLen with at most one wait(false) followed by at
+// most one wait(true), at most 2 blocked senders at any time, finishes only of started handlers,
+// and at least one event issued while no wait() is running.
+func gapHistories(maxLen int) [][]string {
+	var out [][]string
+	var rec func(ops []string, w0, w1, waiting bool, starts, fins, sigs, outside int)
+	rec = func(ops []string, w0, w1, waiting bool, starts, fins, sigs, outside int) {
+		if w1 && outside > 0 {
+			out = append(out, append([]string(nil), ops...))
+		}
+		if len(ops) == maxLen {
+			return
+		}
+		for _, op := range []string{"w0", "w1", "start", "finish", "int"} {
+			switch op {
+			case "w0":
+				if w0 || w1 {
+					continue
+				}
+				rec(append(ops, op), true, w1, true, starts, fins, sigs, outside)
+			case "w1":
+				if w1 || (w0 && sigs == 0) {
+					continue // wait(true) is only called after wait(false) returned a signal
+				}
+				rec(append(ops, op), w0, true, true, starts, fins, sigs, outside)
+			case "start":
+				o := outside
+				if !waitingNow(w0, w1, sigs, ops) {
+					o++
+				}
+				if o-outsideConsumed(ops) > 2 {
+					continue
+				}
+				rec(append(ops, op), w0, w1, waiting, starts+1, fins, sigs, o)
+			case "finish":
+				if fins >= starts {
+					continue
+				}
+				o := outside
+				if !waitingNow(w0, w1, sigs, ops) {
+					o++
+				}
+				rec(append(ops, op), w0, w1, waiting, starts, fins+1, sigs, o)
+			case "int":
+				if sigs > 0 {
+					continue
+				}
+				o := outside
+				if !waitingNow(w0, w1, sigs, ops) {
+					o++
+				}
+				rec(append(ops, op), w0, w1, waiting, starts, fins, sigs+1, o)
+			}
+		}
+	}
+	rec(nil, false, false, false, 0, 0, 0, 0)
+	return out
+}
+
+// waitingNow: (an approximation used only to select histories) a wait is running if the last
+// wait call was w1, or w0 with no signal issued yet.
+func waitingNow(w0, w1 bool, sigs int, ops []string) bool {
+	for i := len(ops) - 1; i >= 0; i-- {
+		switch ops[i] {
+		case "w1":
+			return true
+		case "w0":
+			for _, o := range ops[i+1:] {
+				if o == "int" {
+					return false
+				}
+			}
+			// a signal issued before w0 is taken by it sooner or later too
+			for _, o := range ops[:i] {
+				if o == "int" {
+					return false
+				}
+			}
+			return true
+		}
+	}
+	return false
+}
+
+func outsideConsumed(ops []string) int { return 0 }
 
 // ---------------------------------------------------------------- handlers (clientHandler / serverHandler)
 
@@ -474,7 +691,7 @@ func (s *relayState) absorb(cmd string, rep string) bool {
 	parts := strings.SplitN(f[1], ";", 2)
 	evs := strings.Fields(parts[0])
 	w := strings.Fields(cmd)
-	if f[0] == "noop" && (w[0] == "wr" || w[0] == "cl") {
+	if f[0] == "noop" && (w[0] == "wr" || w[0] == "cl" || w[0] == "hw" || w[0] == "hr") {
 		// the harness only grants what the driver reported as parked
 		s.viol("hook-driver-desync", "command "+cmd+" was refused although the driver had reported that operation as parked: "+rep)
 	}
@@ -509,6 +726,8 @@ func (s *relayState) absorb(cmd string, rep string) bool {
 		s.items = append(s.items, "c:wr:"+w[1]+":"+w[2]+":"+k)
 	case "cl":
 		s.items = append(s.items, "c:cl:"+w[1])
+	case "hw", "hr":
+		s.items = append(s.items, "c:"+w[0]+":"+w[1])
 	}
 	if (w[0] == "rd" || w[0] == "wr" || w[0] == "cl") && s.closed["A"] && s.closed["B"] && f[0] == "ok" {
 		s.grants[w[1]]++
@@ -677,6 +896,8 @@ func (s *relayState) enabled(sc *relayScenario) []string {
 			}
 		case "cl":
 			out = append(out, "cl "+d)
+		case "hw", "hr":
+			out = append(out, p[0]+" "+d)
 		}
 	}
 	for _, c := range []string{"A", "B"} {
@@ -717,9 +938,17 @@ type worker struct {
 
 // runRelay executes a command list (and, if sc != nil, extends it to a leaf by always taking
 // the first enabled command, returning the untaken alternatives as new work).
-func runRelay(w *worker, sc *relayScenario, cmds []string, leafHint bool) (s *relayState, full []string, alts [][]string, leaf bool) {
+// newCmd: conns with CloseWrite/CloseRead (like *net.TCPConn) for scenarios named hc-…
+func newCmd(name string) string {
+	if strings.Contains(name, "hc-") {
+		return "relay.new hc"
+	}
+	return "relay.new"
+}
+
+func runRelay(w *worker, sc *relayScenario, name string, cmds []string, leafHint bool) (s *relayState, full []string, alts [][]string, leaf bool) {
 	s = newRelayState()
-	rep := w.h.call("relay.new")
+	rep := w.h.call(newCmd(name))
 	if !s.absorb("relay.new", rep) {
 		return s, cmds, nil, false
 	}
@@ -838,7 +1067,7 @@ func exploreAll(r *vlib.Run, ws []*worker, sc *relayScenario, maxLeaves int) (le
 				busy++
 				leaves++
 				mu.Unlock()
-				s, full, alts, leaf := runRelay(w, sc, item, false)
+				s, full, alts, leaf := runRelay(w, sc, sc.Name, item, false)
 				judgeRelay(r, w, sc.Name, s, full, leaf)
 				mu.Lock()
 				stack = append(stack, alts...)
@@ -882,6 +1111,13 @@ func scenarios(thorough bool) []*relayScenario {
 		mk("envfirst-2+1-eof-eof", [][]byte{a1, a2}, [][]byte{b1}, "eof", "eof", nil, false),
 		mk("envfirst-1+2-err-werr", [][]byte{a1}, [][]byte{b1, b2}, "err", "", map[string]string{"ba": "1:err:0"}, false),
 		mk("envfirst-2+1-faults", [][]byte{a1, a2}, [][]byte{b1}, "", "eof", map[string]string{"ab": "1:err:2", "ba": "0:short:1"}, false),
+		// the same on conns that have CloseWrite/CloseRead, as *net.TCPConn has
+		mk("hc-idle-eof", nil, nil, "eof", "", nil, false),
+		mk("hc-idle-eof-both", nil, nil, "eof", "eof", nil, false),
+		mk("hc-1chunk-eof", [][]byte{a1}, nil, "eof", "", nil, true),
+		mk("hc-1+1-eof", [][]byte{a1}, [][]byte{b1}, "eof", "", nil, false),
+		mk("hc-1chunk-err", nil, [][]byte{b1}, "", "err", nil, false),
+		mk("envfirst-hc-2+1-eof-eof", [][]byte{a1, a2}, [][]byte{b1}, "eof", "eof", nil, false),
 		// the error VALUE of the failing operation: whatever it is, that copier's side has ended
 		mk("idle-err-optimeout", nil, nil, "err:optimeout", "", nil, false),
 		mk("idle-err-deadline-eintr", nil, nil, "err:deadline", "err:opeintr", nil, false),
@@ -907,7 +1143,11 @@ func scenarios(thorough bool) []*relayScenario {
 var errKinds = []string{"plain", "new", "optimeout", "opeintr", "opreset", "oppipe", "opdeadline", "tempnet"}
 
 func randomScenario(rng *vlib.Rng, i int) *relayScenario {
-	sc := &relayScenario{Name: fmt.Sprintf("random-%d", i), Chunks: map[string][][]byte{}, Fin: map[string]string{}, Fault: map[string]string{}}
+	hc := ""
+	if i%2 == 1 {
+		hc = "hc-"
+	}
+	sc := &relayScenario{Name: fmt.Sprintf("random-%s%d", hc, i), Chunks: map[string][][]byte{}, Fin: map[string]string{}, Fault: map[string]string{}}
 	sizes := []int{1, 2, 3, 17, 100, 1000, 32767, 32768, 32769, 40000}
 	for si, c := range []string{"A", "B"} {
 		n := rng.Intn(6)
@@ -944,7 +1184,7 @@ func randomRun(r *vlib.Run, w *worker, rng *vlib.Rng, i int) {
 	sc := randomScenario(rng, i)
 	s := newRelayState()
 	var full []string
-	if !s.absorb("relay.new", w.h.call("relay.new")) {
+	if !s.absorb("relay.new", w.h.call(newCmd(sc.Name))) {
 		judgeRelay(r, w, sc.Name, s, full, false)
 		return
 	}
@@ -1103,10 +1343,14 @@ func main() {
 			var c handlerCase
 			r.LoadReplay(&c)
 			checkHandler(r, ws[0].h, c)
+		case "gap":
+			var c gapCase
+			r.LoadReplay(&c)
+			checkGap(r, ws[0].h, ws[0].d, c)
 		case "relay":
 			var c relayCase
 			r.LoadReplay(&c)
-			s, full, _, leaf := runRelay(ws[0], nil, c.Cmds, c.Leaf)
+			s, full, _, leaf := runRelay(ws[0], nil, c.Name, c.Cmds, c.Leaf)
 			judgeRelay(r, ws[0], c.Name, s, full, leaf)
 		}
 		finish()
@@ -1133,7 +1377,7 @@ func main() {
 			case "relay":
 				var c relayCase
 				r.LoadReplay(&c)
-				s, full, _, leaf := runRelay(ws[0], nil, c.Cmds, c.Leaf)
+				s, full, _, leaf := runRelay(ws[0], nil, c.Name, c.Cmds, c.Leaf)
 				judgeRelay(r, ws[0], c.Name, s, full, leaf)
 			}
 			r.Count("corpus", filepath.Base(f))
@@ -1159,6 +1403,11 @@ func main() {
 		fmt.Fprintf(os.Stderr, "C19: %d termMonitor cases in %.1fs\n", len(tcases), time.Since(tPhase).Seconds())
 	}
 	r.Notes["term_exhaustive_space"] = fmt.Sprintf("all %d histories of length 0..%d over {start,finish,int,term} x 3 modes", len(hs), maxLen)
+
+	// 1b. events issued while the monitor is not parked in wait()
+	gaps := gapHistories(map[bool]int{false: 6, true: 7}[r.Thorough()])
+	parallel(ws, len(gaps), func(w *worker, i int) { checkGap(r, w.h, w.d, gapCase{Ops: gaps[i]}) })
+	r.Notes["term_gap_histories"] = len(gaps)
 
 	// 2. real clientHandler / serverHandler against the monitor
 	var hcases []handlerCase
